@@ -1322,6 +1322,13 @@ pub fn gen_cases(seed: u64, thorough: bool) -> Vec<String> {
         cs.push(case("adf", &f));
     }
 
+    // --- 2b. solver-style cases: header fields fixed JOINTLY so that every guard but one is satisfied (harness/src/c02joint.rs)
+    cs.extend(crate::c02joint::xbin_cases(thorough));
+    cs.extend(crate::c02joint::idf_cases(thorough));
+    cs.extend(crate::c02joint::adf_cases());
+    cs.extend(crate::c02joint::tundra_cases(thorough));
+    cs.extend(crate::c02joint::icy_layer_cases());
+
     // --- 3. random bytes (with and without a format magic) under every extension
     for _ in 0..(120 * k) {
         let lim = if rng.chance(1, 8) { 600 } else { 64 };
@@ -1376,7 +1383,9 @@ pub fn gen_cases(seed: u64, thorough: bool) -> Vec<String> {
     cs.extend(crate::fontpal::font_cases(&mut rng, thorough));
 
     // --- 6. TheDraw fonts
-    for f in tdf_files(&mut rng) {
+    let tdfs = tdf_files(&mut rng);
+    cs.extend(crate::c02joint::tdf_cases(&tdfs[..tdfs.len().min(3)]));
+    for f in tdfs {
         cs.push(case("@tdf", &f));
         for l in truncation_lengths(f.len(), if thorough { 4000 } else { 700 }, &[0, 20, 233, f.len()], 20, &mut rng) {
             cs.push(case("@tdf", &f[..l]));
